@@ -15,6 +15,9 @@ VAR_FLOOR = 1e-16
 
 def error_bound(n_rows: int, max_abs: float) -> float:
     """Absolute error bound of second-moment quantities computed from prefix sums."""
+    if np.ndim(max_abs) > 0:  # one magnitude per column: every column's prefix sums are accumulated on their own
+        mm = np.maximum(np.asarray(max_abs, dtype=np.float64), 1e-300)
+        return np.maximum(32.0 * (n_rows + 1) ** 2 * EPS * mm * mm, 1e-280)
     m = max(float(max_abs), 1e-300)
     # floor: for magnitudes below ~1e-140 the squares are subnormal or underflow, where relative error bounds mean nothing
     return max(32.0 * (n_rows + 1) ** 2 * EPS * m * m, 1e-280)
@@ -61,7 +64,7 @@ def gaussian_var_cost_enclosure(rows, n_fit, max_abs, param=None):
         mean, var = param
         mean = np.broadcast_to(np.asarray(mean, dtype=np.float64).reshape(-1), (p,))
         var = np.broadcast_to(np.asarray(var, dtype=np.float64).reshape(-1), (p,))
-        Bf = error_bound(n_fit, max(max_abs, float(np.max(np.abs(mean)))))
+        Bf = error_bound(n_fit, np.maximum(max_abs, np.abs(mean)) if np.ndim(max_abs) > 0 else max(max_abs, float(np.max(np.abs(mean)))))
         rss = rss_direct(rows, mean)
         base = n * np.log(2 * np.pi * var)
         lo = base + (rss - Bf) / var
